@@ -6,7 +6,7 @@ import random
 from typing import Any, Dict, Iterator, List
 
 USER = ["a", "b", "c"]
-POOL = [1, 2, 3, 4, 5, 6, 7, 8, 9, 10, 11, 12, 13, 14, 15, 16, 17, 18, 19, 27, 28, 40, 41, 42, 43, 44]
+POOL = [1, 2, 3, 4, 5, 6, 7, 8, 9, 10, 11, 12, 13, 14, 15, 16, 17, 18, 19, 20, 21, 27, 28, 40, 41, 42, 43, 44, 46, 47]
 MODES = ["ok", "fail", "nores", "requeue"]
 
 
@@ -31,6 +31,8 @@ def gen_hist(seed: int, n: int) -> List[Dict[str, Any]]:
             decl.append(["max_retries", 20 + rng.randint(0, 6)])
         if rng.random() < 0.5:
             decl.append(["retry_on_error", rng.choice([7, 8, 27, 28, 10])])
+        if rng.random() < 0.25:
+            decl.append(["timeout", rng.choice([48, 49, 50])])      # int / str / float seconds
         cfg = {"decl": decl, "ser": rng.choice(["json", "pickle"]), "mws": _mws(rng), "retry": _retry(rng), "shared": rng.random() < 0.3}
         ops: List[Any] = []
         sent = 0
@@ -78,6 +80,9 @@ def gen_leak_enum() -> Iterator[Dict[str, Any]]:
 
 def gen_values_enum() -> Iterator[Dict[str, Any]]:
     """C09 first half: every pool value x serializer x path (first delivery, retry, requeue, requeue twice)."""
+    for tv, ser in itertools.product([48, 49, 50], ["json", "pickle"]):
+        yield {"cfg": {"decl": [["timeout", tv], ["a", 9]], "ser": ser, "retry": {"on": True, "defcount": 3, "deflabel": True, "nores": False}},
+               "ops": [["tkiq", False], ["run_last", "fail"], ["run_last", "requeue"], ["run_last", "ok"]], "family": "values_enum"}
     for v, ser, path in itertools.product(POOL, ["json", "pickle"], ["first", "retry", "requeue", "requeue2", "decl"]):
         retry = {"on": True, "defcount": 3, "deflabel": True, "nores": False}
         if path == "decl":
